@@ -62,6 +62,13 @@ CLAIMS = {
         note=A1 + 'ASSUMED callee contract: Neg for Function (value negated up to an explicit epsilon-drop remainder). NOT covered: SampleSet::best / best_feasible* / feasible_ids (iterator chains with min_by/total_cmp closures) - the selection half of the property is only decided for its table lookups. Precondition (observation): a present objective has its oneof set.',
         technique='contract-based deductive verification (Verus) of mechanically extracted Rust functions',
         ref='DESIGN 6 C15'),
+    'C09': dict(
+        text='Deductive proof (Verus) of the real text of Instance::penalty_method and uniform_penalty_method: no active constraint remains; the removed list is the old removed list followed by every active constraint, unchanged; '
+             'fresh weight parameters with ids (max defined id)+1+i (never a decision-variable id, pairwise distinct), tagged with the constraint id; variables/sense/dependencies/hints/description carried; '
+             'the objective is exactly the expression f + sum_i (p_i*g_i)*g_i (uniform: f + p*(sum g_i*g_i)) built with the Function operators. Ghost lemmas evaluate that expression to f(x) + sum w_i g_i(x)^2 (uniform: f + w sum g_i^2) minus an explicit epsilon-drop remainder.',
+        note=A1 + 'ASSUMED callee contracts (dispatch layer decided in C02): Function+Function, Function*Function, &Parameter*Function are pure and compute sum/product up to an explicit (uninterpreted) epsilon-drop remainder. Preconditions (observations): no id overflow, oneofs set. Defect D13 (already-removed constraints dropped) was found by this check and repaired in /repo (fix: 7b9b39a).',
+        technique='contract-based deductive verification (Verus) of mechanically extracted Rust functions + ghost lemmas evaluating the constructed expression',
+        ref='DESIGN 6 C09'),
 }
 NA = {
     'C06': 'evaluate_samples is built from FnMut closures capturing &mut state and iterator adapters over HashMap<OrderedFloat,..>: rejected by Verus, far beyond measured Kani limits; leaf lookups alone do not decide the property (DESIGN 6 C06)',
